@@ -280,6 +280,12 @@ def r5_predicates(ctx, prog, rule_id='C11.R5'):
                     break
             if bad:
                 r.violation(fname, site, '%s (entry with %s)' % (bad[0], site), file=f['file'], line=bad[1]['line'], path=bad[1]['path'])
+            elif want and not any(e[1] == 'erase' and e[2][0] == 'handles' and e[3] >= loopline[fname] for oc in o.outcomes for e in oc['events']):
+                # nothing is erased on any path: the iterations leave no trace, the states merge and no path shows the loop marker
+                if o.outcomes and loopline[fname]:
+                    r.violation(fname, site, 'an affected entry is not erased from the handle map on any path (entry with %s)' % site, file=f['file'], line=loopline[fname])
+                else:
+                    r.undecided(fname, site, 'no path / no loop over the handle map found', file=f['file'], line=f['line'])
             else:
                 r.ok(fname, site, '%d paths; expected %s' % (len(o.outcomes), 'erase' if want else 'keep'), file=f['file'], line=f['line'])
     # line of the loop in each function (events before it — e.g. erasing the session's own entry — are not about the iterated entry)
@@ -295,8 +301,8 @@ def r5_predicates(ctx, prog, rule_id='C11.R5'):
     run('HandleManager::tokenLoggedOut', {'kind': [KS, KO], 'sameslot': [0, 1], 'private': [0, 1]}, lambda d: d['kind'] == KO and d['sameslot'] and d['private'])
     run('HandleManager::allSessionsClosed', {'kind': [KS, KO], 'sameslot': [0, 1]}, lambda d: bool(d['sameslot']), extra={'isLocked': 1})
     run('HandleManager::sessionClosed', {'kind': [KS, KO], 'sameslot': [0, 1], 'samesession': [0, 1]}, lambda d: d['kind'] == KO and d['samesession'],
-        extra={re.compile(r'operator==\(.*,end\(handles\)\)'): 0, re.compile(r'operator->\(find\(.*\)\)\.second\.kind'): KS,
-               re.compile(r'operator->\(find\(.*\)\)\.second\.slotID'): SLOT})
+        extra={re.compile(r'operator==\(find(@\d+)?\(.*\),end\(handles\)\)'): 0, re.compile(r'operator->\(find(@\d+)?\(.*\)\)\.second\.kind'): KS,
+               re.compile(r'operator->\(find(@\d+)?\(.*\)\)\.second\.slotID'): SLOT})
     # destroyObject: erases iff found and an object
     f = prog.fn('HandleManager::destroyObject')
     for found in (0, 1):
@@ -337,13 +343,16 @@ def r5_predicates(ctx, prog, rule_id='C11.R5'):
                 r.ok(fname, site, 'as required', file=g['file'], line=g['line'])
     # sessionClosed: the session's own handle is erased and the last close purges the slot
     f = prog.fn('HandleManager::sessionClosed')
-    o = Outcomes(f, prog, cenv={re.compile(r'operator==\(.*,end\(handles\)\)'): 0, re.compile(r'.*\.kind'): KS, re.compile(r'operator->\(find\(.*\)\)\.second\.slotID'): SLOT,
+    o = Outcomes(f, prog, cenv={re.compile(r'operator==\(find(@\d+)?\(.*\),end\(handles\)\)'): 0, re.compile(r'.*\.kind'): KS, re.compile(r'operator->\(find(@\d+)?\(.*\)\)\.second\.slotID'): SLOT,
                                 re.compile(r'.*\.slotID'): SLOT + 1, 'hSession': HS, 'slotID': SLOT,
                                 re.compile(r'.*\.hSession'): HS + 1}, record_calls={'erase', 'allSessionsClosed'})
     o.LOOP_ROUNDS = 2
     o.go()
     # here the looked-up entry is a session (kind KS) and every iterated entry is a session of another slot: this was the last session of its slot
     bad = [oc for oc in o.outcomes if not any(e[1] == 'erase' and e[2][0] == 'handles' and e[3] < loopline['HandleManager::sessionClosed'] for e in oc['events'])]
+    if not o.outcomes:
+        r.undecided(f['qname'], 'own session handle', 'no path returns under the finite-domain assignment', file=f['file'], line=f['line'])
+        return
     if bad:
         r.violation(f['qname'], 'own session handle', 'the closed session\'s own handle is not erased', file=f['file'], line=bad[0]['line'], path=bad[0]['path'])
     else:
@@ -360,7 +369,7 @@ def r5_predicates(ctx, prog, rule_id='C11.R5'):
 def r6_store_key(ctx, prog, rule_id='C11.R6'):
     """Session objects are destroyed by SessionObjectStore::sessionClosed(hSession) with the handle C_CloseSession received.  They are found again only if they were created under that
     same handle: every SessionObjectStore::createObject call passes the CK_SESSION_HANDLE parameter of the API call (not an internal session number)."""
-    r = ctx.rule(rule_id, 'session objects are created under the session handle that C_CloseSession will present', floor=3, engine='E2 value following')
+    r = ctx.rule(rule_id, 'session objects are created under the session handle that C_CloseSession will present', floor=2, engine='E2 value following')
     closers = [c for g in prog.functions.values() if g.get('class') == 'SoftHSM' for c in calls(g['body']) if (c.get('callee') or '').startswith('SessionObjectStore::sessionClosed')]
     for g in sorted(prog.functions.values(), key=lambda g: (g['file'], g['line'])):
         if g.get('class') != 'SoftHSM':
@@ -394,8 +403,6 @@ def r6_store_key(ctx, prog, rule_id='C11.R6'):
                         % (bad[0][2][2], hs[0] if hs else '-'), file=g['file'], line=bad[0][3])
         else:
             r.ok(g['qname'], site, 'created under %s' % hs[0], file=g['file'], line=evs[0][3])
-    if not closers:
-        r.undecided('SoftHSM', 'sessionClosed', 'no caller of SessionObjectStore::sessionClosed found', file='', line=0)
 
 
 def r7_session_ids(ctx, prog):
